@@ -57,7 +57,13 @@ AliasedAt == UNION { { Rec(<< Field("a", P("int32")), Field("f", Alias(s)), Fiel
                        Vec(Alias(s)), Map(P("string"), Alias(s)), Alias(Alias(s)), FVec(Alias(s), 2) } : s \in AliasedShapes }
              \cup UNION { { Opt(Alias(s)), Union(<<Case("al" \o (IF s.k = "prim" THEN s.p ELSE s.k), Alias(s)), Case("bool", P("bool"))>>, TRUE), NdArr(Alias(s), 1),
                             Rec(<< Field("o", Opt(Alias(s))), Field("v", Vec(Alias(s))) >>) } : s \in { x \in AliasedShapes : ~IsUnionishT(x) } }
-NamedTypes == RNamed \cup PodContainers \cup AliasedAt \cup { RGenU, Vec(RGenU), RPod, RPod2, E3, EU8, EI64, F3, FU64, R2, ROpt, REmpty, Alias(P("int32")), Alias(P("string")), Alias(Vec(P("float32"))) }
+\* optionals and unions directly inside every container (a generator that takes "the first case" of a container's item type for the
+\* item type is right for every other item type)
+Unionish == { Opt(P("int32")), Opt(P("string")), Opt(R2), Union(<<Case("int32", P("int32")), Case("string", P("string"))>>, TRUE),
+              Union(<<Case("int32", P("int32")), Case("string", P("string"))>>, FALSE), Union(<<Case("float32", P("float32")), Case("rec", R2)>>, FALSE) }
+ContainersOfUnionish == UNION { { Vec(u), FVec(u, 2), Map(P("string"), u), Map(P("int32"), u), DynArr(u), NdArr(u, 1), FArr(u, <<2>>),
+                                  Rec(<< Field("m", Map(P("string"), u)), Field("v", Vec(u)) >>) } : u \in Unionish }
+NamedTypes == RNamed \cup PodContainers \cup AliasedAt \cup ContainersOfUnionish \cup { RGenU, Vec(RGenU), RPod, RPod2, E3, EU8, EI64, F3, FU64, R2, ROpt, REmpty, Alias(P("int32")), Alias(P("string")), Alias(Vec(P("float32"))) }
 
 KeyTypes == { P("string"), P("int32"), P("uint64"), P("int8"), Alias(P("string")) }
 
